@@ -23,10 +23,10 @@ Print Assumptions C05_fragments_fit_and_flagged.
 
 (* ---- reassembly, RESYNC ----
    From EVERY assembler state (whatever preceded), the fragments of a well-formed PDU cut by
-   any m >= 2, with either start marker, deliver exactly that PDU, once, and leave the
+   ANY m >= 1 (also cuts that leave fewer than two bytes in the start fragment), with either start marker, deliver exactly that PDU, once, and leave the
    assembler in its initial state. *)
 Theorem C05_reassembly_from_any_state : forall s h pb m pdu ps,
-  2 <= m -> pb = 0 \/ pb = 2 -> pdu_wf pdu ->
+  1 <= m -> pb = 0 \/ pb = 2 -> pdu_wf pdu ->
   fragment h pb m pdu = Some ps ->
   asm_run s ps = (asm_init, [Deliver pdu]).
 Proof. exact asm_fragment. Qed.
@@ -34,17 +34,26 @@ Print Assumptions C05_reassembly_from_any_state.
 
 (* ... also with an arbitrary packet sequence in front: its effects come first, untouched *)
 Theorem C05_resync_after_garbage : forall s junk h pb m pdu ps,
-  2 <= m -> pb = 0 \/ pb = 2 -> pdu_wf pdu -> fragment h pb m pdu = Some ps ->
+  1 <= m -> pb = 0 \/ pb = 2 -> pdu_wf pdu -> fragment h pb m pdu = Some ps ->
   asm_run s (junk ++ ps) = (asm_init, snd (asm_run s junk) ++ [Deliver pdu]).
 Proof. exact asm_resync. Qed.
 Print Assumptions C05_resync_after_garbage.
 
-(* The guard m >= 2 is needed: a 1-byte start fragment cannot carry the length field. *)
-Theorem C05_reassembly_m1_refuted :
+(* Before fix D05b (start fragment shorter than the length field raised struct.error) this was
+   false for m = 1; with the fix the same fragments deliver the PDU. *)
+Theorem C05_reassembly_m1_before_d05b_refuted :
   exists pdu ps, pdu_wf pdu /\ fragment 1 0 1 pdu = Some ps /\
-                 deliveries (snd (asm_run asm_init ps)) = [].
-Proof. exact asm_fragment_m1_refuted. Qed.
-Print Assumptions C05_reassembly_m1_refuted.
+                 deliveries (snd (asm_run_before_d05b asm_init ps)) = [] /\
+                 deliveries (snd (asm_run asm_init ps)) = [pdu].
+Proof. exact asm_fragment_m1_before_d05b_refuted. Qed.
+Print Assumptions C05_reassembly_m1_before_d05b_refuted.
+
+(* soundness of deliveries: from ANY state, for ANY packets, whatever is handed to L2CAP has a
+   length field that matches its size *)
+Theorem C05_deliveries_are_wellformed : forall ps s d,
+  In d (deliveries (snd (asm_run s ps))) -> pdu_wf d.
+Proof. exact asm_run_delivers_wf. Qed.
+Print Assumptions C05_deliveries_are_wellformed.
 
 (* ---- streams: arbitrary packets, then a well-formed PDU, repeated ----
    Every well-formed PDU is delivered once, in order; what a malformed sequence causes is a
@@ -58,7 +67,7 @@ Print Assumptions C05_stream_with_malformed_sequences.
 
 (* sequences of well-formed PDUs compose *)
 Theorem C05_sequences_compose : forall h pb m pdus s,
-  2 <= m -> pb = 0 \/ pb = 2 -> Forall pdu_wf pdus ->
+  1 <= m -> pb = 0 \/ pb = 2 -> Forall pdu_wf pdus ->
   deliveries (snd (asm_run s (flat_map item_packets (map (clean h pb m) pdus)))) = pdus.
 Proof. exact asm_sequence. Qed.
 Print Assumptions C05_sequences_compose.
@@ -95,7 +104,7 @@ Theorem C05_truncated_then_next : forall s h pb b0 b1 rest r h' pb' m pdu ps,
   pb = 0 \/ pb = 2 ->
   let c0 := b0 :: b1 :: rest in
   blen (c0 ++ concat r) < rd16 b0 b1 + 4 ->
-  2 <= m -> pb' = 0 \/ pb' = 2 -> pdu_wf pdu -> fragment h' pb' m pdu = Some ps ->
+  1 <= m -> pb' = 0 \/ pb' = 2 -> pdu_wf pdu -> fragment h' pb' m pdu = Some ps ->
   asm_run s ((start h pb c0 :: map (cont h) r) ++ ps) = (asm_init, [Deliver pdu]).
 Proof. exact truncated_then_next. Qed.
 Print Assumptions C05_truncated_then_next.
@@ -105,6 +114,34 @@ Theorem C05_delivery_resets : forall s p s' o,
   feed s p = (s', o) -> (exists d, In (Deliver d) o) \/ In Overflow o -> s' = asm_init.
 Proof. exact feed_resets. Qed.
 Print Assumptions C05_delivery_resets.
+
+(* the property's sentence, at the receiving host: arbitrary packet sequences injected before
+   each PDU; if they deliver nothing by themselves, L2CAP sees exactly the PDUs sent *)
+Theorem C05_rx_with_faults : forall hB mB xs,
+  1 <= mB -> Forall sendable (map snd xs) -> Forall (fun x => silent (fst x)) xs ->
+  flat_map host_on_acl_pdu (deliveries (snd (asm_run asm_init (faulty_stream hB mB xs)))) = map snd xs.
+Proof. exact rx_with_faults. Qed.
+Print Assumptions C05_rx_with_faults.
+
+(* ... and the named malformed sequences are such sequences *)
+Theorem C05_silent_continuations : forall ps, Forall (fun p => a_pb p = 1) ps -> silent ps.
+Proof. exact silent_conts. Qed.
+Print Assumptions C05_silent_continuations.
+
+Theorem C05_silent_overflow : forall h pb b0 b1 rest r more,
+  pb = 0 \/ pb = 2 ->
+  (r <> [] -> blen ((b0 :: b1 :: rest) ++ concat (removelast r)) < rd16 b0 b1 + 4) ->
+  blen ((b0 :: b1 :: rest) ++ concat r) > rd16 b0 b1 + 4 ->
+  Forall (fun p => a_pb p = 1) more ->
+  silent (start h pb (b0 :: b1 :: rest) :: map (cont h) r ++ more).
+Proof. exact silent_overflow. Qed.
+Print Assumptions C05_silent_overflow.
+
+Theorem C05_silent_truncated : forall h pb b0 b1 rest r,
+  pb = 0 \/ pb = 2 -> blen ((b0 :: b1 :: rest) ++ concat r) < rd16 b0 b1 + 4 ->
+  silent (start h pb (b0 :: b1 :: rest) :: map (cont h) r).
+Proof. exact silent_truncated. Qed.
+Print Assumptions C05_silent_truncated.
 
 (* ---- codecs on the path ---- *)
 Theorem C05_l2cap_header_roundtrip : forall cid payload b,
@@ -132,10 +169,10 @@ Proof. exact acl_wire_roundtrip. Qed.
 Print Assumptions C05_acl_header_roundtrip.
 
 (* ---- end to end: host A -> controller A -> link -> controller B -> host B ----
-   For all handles, all fragment sizes 2..65535 on either side, every list of PDUs with
+   For all handles, all fragment sizes 1..65535 on either side, every list of PDUs with
    0..65535 payload bytes: the peer's L2CAP layer sees exactly the PDUs sent, once, in order. *)
 Theorem C05_relay_intact : forall hA mA hB mB pdus,
-  0 <= hA < 4096 -> 0 <= hB < 4096 -> 2 <= mA <= 65535 -> 2 <= mB <= 65535 ->
+  0 <= hA < 4096 -> 0 <= hB < 4096 -> 1 <= mA <= 65535 -> 1 <= mB <= 65535 ->
   Forall sendable pdus ->
   relay hA mA hB mB pdus = Some pdus.
 Proof. exact relay_intact. Qed.
@@ -188,6 +225,21 @@ Theorem C05_iso_wire_roundtrip : forall p, iso_first_ok p \/ iso_cont_ok p ->
 Proof. exact iso_wire_roundtrip. Qed.
 Print Assumptions C05_iso_wire_roundtrip.
 
+(* every packet of an SDU can be read back by the receiving host, field for field *)
+Theorem C05_iso_sdu_wire_intact : forall h maxp seq sdu,
+  0 <= h < 4096 -> 4 < maxp <= 65535 -> 0 <= seq <= 65535 -> blen sdu < 4096 ->
+  exists ps, fst (send_iso_sdu h maxp seq sdu) = Some ps /\
+             concat (map i_frag ps) = sdu /\
+             Forall (fun p => exists b, iso_to_bytes p = Some b /\ iso_from_bytes b = Some p) ps.
+Proof. exact iso_sdu_wire_intact. Qed.
+Print Assumptions C05_iso_sdu_wire_intact.
+
+(* a zero-length SDU has no fragment; it still consumes one sequence number *)
+Theorem C05_iso_empty_sdu : forall h maxp seq, 0 <= seq ->
+  send_iso_sdu h maxp seq [] = (Some [], (seq + 1) mod 65536).
+Proof. exact send_iso_sdu_empty. Qed.
+Print Assumptions C05_iso_empty_sdu.
+
 (* the guard "SDU length < 2^12" of the wire round trip is needed *)
 Theorem C05_iso_sdu_length_4096_refuted :
   exists p b, iso_to_bytes p = Some b /\ i_sdu_len p = Some 4096 /\
@@ -209,6 +261,12 @@ Proof.
   - reflexivity.
   - unfold item_wf. cbn. split; [discriminate|]. split; [left; reflexivity|reflexivity].
 Qed.
+
+Example C05_example_one_byte_fragments :
+  relay 1 1 2 1 [(4, [10; 20; 30]); (5, [])] = Some [(4, [10; 20; 30]); (5, [])] /\
+  silent [mkAcl 1 0 0 1 [9]; mkAcl 1 1 0 1 [0]; mkAcl 1 1 0 2 [4; 0]] /\
+  silent [mkAcl 1 1 0 3 [1; 2; 3]].
+Proof. vm_compute. repeat split. Qed.
 
 Example C05_example_overflow :
   asm_run asm_init [mkAcl 1 0 0 5 [1; 0; 4; 0; 9]; mkAcl 1 0 0 4 [2; 0; 4; 0]; mkAcl 1 1 0 3 [1; 2; 3];
